@@ -65,7 +65,7 @@ def gaussian_flow(program: Program):
     f = k.methods.get("h2_flow")
     if f is None:
         raise AnalysisError("GaussianEuclideanMetricSystem.h2_flow not found")
-    env = SymEnv({"self.metric.eigval": S("R") * S("R")})  # eigval = R**2 per eigen-mode (eigval > 0)
+    env = SymEnv({"self.metric.eigval": S("R") * S("R")}, cls=k)  # eigval = R**2 per eigen-mode (eigval > 0)
     env.run(f.body_without_docstring())
     return k, f, env
 
@@ -187,10 +187,11 @@ def rule_r3(rep, program: Program):
     q1s = q1.subs(E, one).subs(ET, one)
     p1s = p1.subs(E, one).subs(ET, one)
     cq, cp = q1s.coeff_of(f"{sp}.mom"), p1s.coeff_of(f"{sp}.mom")
-    g = program.cls("GaussianDenseConstrainedEuclideanMetricSystem").methods.get("dh2_flow_dmom")
+    kg = program.cls("GaussianDenseConstrainedEuclideanMetricSystem")
+    g = kg.methods.get("dh2_flow_dmom")
     if g is None:
         raise AnalysisError("GaussianDenseConstrainedEuclideanMetricSystem.dh2_flow_dmom not found")
-    ge = SymEnv({"self.metric.eigval": S("R") * S("R")})
+    ge = SymEnv({"self.metric.eigval": S("R") * S("R")}, cls=kg)
     body = g.body_without_docstring()
     ge.run(body[:-1])
     ret = body[-1].value
